@@ -145,4 +145,75 @@ theorem checkPath_mono (il1 il2 : Nat → Bool) (k1 k2 : Kind) (p : Bytes)
     rw [hk1] at h3
     simpa using h3
 
+/-! ### splitOn -/
+
+theorem splitOn_ne_nil (sep : UInt8) (s : Bytes) : splitOn sep s ≠ [] := by
+  induction s with
+  | nil => simp [splitOn]
+  | cons c rest ih =>
+    unfold splitOn
+    split
+    · simp
+    · split <;> simp
+
+theorem splitOn_cons_sep (sep : UInt8) (s : Bytes) : splitOn sep (sep :: s) = [] :: splitOn sep s := by
+  simp [splitOn]
+
+theorem splitOn_cons_ne (sep c : UInt8) (s : Bytes) (h : c ≠ sep) :
+    ∃ hd tl, splitOn sep s = hd :: tl ∧ splitOn sep (c :: s) = (c :: hd) :: tl := by
+  cases hs : splitOn sep s with
+  | nil => exact absurd hs (splitOn_ne_nil sep s)
+  | cons hd tl =>
+    refine ⟨hd, tl, rfl, ?_⟩
+    have hc : (c == sep) = false := by simpa using h
+    simp [splitOn, hc, hs]
+
+/-- every byte of `s` other than the separator lies in some piece -/
+theorem mem_splitOn_of_mem (sep : UInt8) (s : Bytes) (b : UInt8) (hb : b ∈ s) (hne : b ≠ sep) :
+    ∃ e ∈ splitOn sep s, b ∈ e := by
+  induction s with
+  | nil => cases hb
+  | cons c rest ih =>
+    by_cases hc : c = sep
+    · subst hc
+      rw [splitOn_cons_sep]
+      have : b ∈ rest := by
+        rcases List.mem_cons.mp hb with h | h
+        · exact absurd h hne
+        · exact h
+      obtain ⟨e, he, hbe⟩ := ih this
+      exact ⟨e, List.mem_cons_of_mem _ he, hbe⟩
+    · obtain ⟨hd, tl, h1, h2⟩ := splitOn_cons_ne sep c rest hc
+      rw [h2]
+      rcases List.mem_cons.mp hb with h | h
+      · exact ⟨c :: hd, by simp, by simp [h]⟩
+      · obtain ⟨e, he, hbe⟩ := ih h
+        rw [h1] at he
+        rcases List.mem_cons.mp he with h' | h'
+        · subst h'; exact ⟨c :: e, by simp, by simp [hbe]⟩
+        · exact ⟨e, by simp [h'], hbe⟩
+
+/-! ### a valid module path is ASCII without '!' -/
+
+theorem checkElem_module_bytes (il : Nat → Bool) (e : Bytes) (h : checkElem il .module e = .ok ()) :
+    ∀ b ∈ e, modPathOK b.toNat = true := by
+  have h5 := ((checkElem_ok_iff il .module e).mp h).2.2.2.2.1
+  have : (Utf8.runes e).all modPathOK = true := h5
+  rw [Utf8.runes_all_of_ascii_pred modPathOK modPathOK_lt] at this
+  intro b hb
+  exact List.all_eq_true.mp this b hb
+
+theorem checkModPath_bytes (p : Bytes) (h : checkModPath p = .ok ()) :
+    ∀ b ∈ p, b = 47 ∨ modPathOK b.toNat = true := by
+  have h1 := ((checkModPath_ok_iff p).mp h).1
+  have h6 := ((checkPath_ok_iff _ .module p).mp h1).2.2.2.2.2
+  intro b hb
+  by_cases hb47 : b = 47
+  · exact Or.inl hb47
+  · obtain ⟨e, he, hbe⟩ := mem_splitOn_of_mem 47 p b hb hb47
+    exact Or.inr (checkElem_module_bytes _ e (h6 e he) b hbe)
+
+theorem modPathOK_not_bang (r : Nat) (h : modPathOK r = true) : r ≠ 33 := by
+  intro h33; subst h33; simp [modPathOK] at h
+
 end ModVerif.Module
